@@ -311,6 +311,8 @@ def tensordot(lhs, rhs, axes=2):
         left_axes = tuple(left_axes)
     if isinstance(right_axes, list):
         right_axes = tuple(right_axes)
+    left_axes = tuple(ax + lhs.ndim if ax < 0 else ax for ax in left_axes)
+    right_axes = tuple(ax + rhs.ndim if ax < 0 else ax for ax in right_axes)
     is_sparse = _tensordot_is_sparse(lhs) or _tensordot_is_sparse(rhs)
     if is_sparse and len(left_axes) == 1:
         concatenate = True
